@@ -1,6 +1,6 @@
 (* Extraction of the C06 model (ExtrOcamlBasic only; Z/positive/nat stay inductive). *)
-From LV Require Import Wire.C2SInput Session.InputDefs.
+From LV Require Import Wire.C2SInput Session.InputDefs Session.InputWorld.
 Require Import ExtrOcamlBasic.
 Extraction Language OCaml.
 Extraction "../build/ocaml/C06/model.ml"
-  c06_step c06_run init_server state_code scale_d scale_v ev_client enc_input.
+  c06_step c06_run init_server state_code scale_d scale_v ev_client enc_input c06_ustep init_world.
